@@ -218,6 +218,8 @@ def evaluate__mod_operator(self: XPathToken, context: ta.ContextType = None) \
     elif op2 == 0 and (isinstance(op2, float) or isinstance(op1, float)):
         return math.nan
     elif math.isinf(op2) and not math.isinf(op1) and op1 != 0:
+        if isinstance(op1, int) or type(op2) is float and type(op1) is not float:
+            op1 = type(op2)(op1)  # numeric promotion to the type of the other operand
         return op1 if self.parser.version != '1.0' else math.nan
 
     try:
